@@ -5,7 +5,7 @@ from ..workloads import shapes as W9
 
 MANIFEST = dict(
     technique="runtime contract on TreeLayout.layout (exit: geometry of the assigned x/y and returned measurement against the tidy-tree invariants) + relational checks over repeated and mirrored layouts; exhaustive shape workload",
-    text="Every layout() call on all tree shapes up to the bound, on full binary trees and on expression trees, under several unit multipliers, is decided at exit: y = depth*unit, left/right placement, centring, per-level order and separation, and the reported bounds; the harness lays every tree out twice and lays out its mirror image. Violations are keyed by sub-invariant and shape class (plain / has a one-child node / the layout left a thread attribute). The contour code of the pinned commit failed five of the sub-invariants for two of the classes; it was repaired (fix commit 029241d) and every sub-invariant is now decided strictly for every class. Held on the shapes observed.",
+    text="Every layout() call on all tree shapes up to the bound, on full binary trees and on expression trees, under several unit multipliers, is decided at exit: y = depth*unit, left/right placement, centring, per-level order and separation, and the reported bounds; the harness lays every tree out twice and lays out its mirror image, mostly through one long-lived TreeLayout object that sees trees of all sizes and units in turn. Violations are keyed by sub-invariant and shape class (plain / has a one-child node / the layout left a thread attribute). The contour code of the pinned commit failed five of the sub-invariants for two of the classes; it was repaired (fix commit 029241d) and every sub-invariant is now decided strictly for every class. Held on the shapes observed.",
     note="Trusts plain geometry on the x/y attributes. Shape class 'threaded' is read from the layout's own thread attribute after the call.",
     ref="DESIGN.md 3/C18",
 )
